@@ -46,8 +46,11 @@ func replayCmd(args []string) *Result {
 			res.Error = err.Error()
 			return res
 		}
+		if e := str("eol"); e != "" {
+			c11EOL = e
+		}
 		ok, what, _ := c11Check(&cs)
-		say("document:\n%s", renderTokens(cs.H, true, canon).text)
+		say("document (line breaks %q):\n%s", c11EOL, renderTokens(cs.H, true, canon).text)
 		if !ok {
 			res.mismatch("c11:"+what, what, json.RawMessage(b))
 		}
